@@ -62,7 +62,14 @@ TEMPLATES = [
     ('/bare/{k}', 'bare'),
     # ASGI: a server-sent-events stream (a plain response on WSGI)
     ('/ev/{k}', 'sse'),
+    # a multipart upload (POST) whose parts carry RFC 5987 filenames
+    ('/up/{k}', 'upload'),
 ]
+
+UPLOAD = ('--BOUND\r\nContent-Disposition: form-data; name="f%d"; filename="fallback.txt"; '
+          "filename*=UTF-8''na%%C3%%AFve-%d.txt\r\nContent-Type: text/plain\r\n\r\nfile body %d\r\n"
+          '--BOUND\r\nContent-Disposition: form-data; name="note"\r\n\r\nplain field\r\n--BOUND--\r\n')
+
 
 UUIDS = ['11111111-1111-1111-1111-111111111111', '22222222-2222-2222-2222-222222222222',
          '33333333-3333-3333-3333-333333333333']
@@ -103,15 +110,19 @@ def gen_plan(ch, deep=False):
     if scenario == 7:
         # three requests on one route whose answers differ only in something the framework could
         # be tempted to memoise per process / per app (status line by code, handler by class)
-        kind = ['status', 'errmix', 'bare', 'sse'][ch.draw(4, 'memo_kind')]
+        kind = ['status', 'errmix', 'bare', 'sse', 'upload'][ch.draw(5, 'memo_kind')]
         ki = [i for i, t in enumerate(TEMPLATES) if t[1] == kind][0]
         if ki not in routes:
             routes.append(ki)
             routes.sort()
         for k in range(3):
-            reqs.append({'route': ki, 'path': path_for(TEMPLATES[ki][0], ch.draw(3, 'variant')), 'method': 'GET',
-                         'tag': 'tag%d' % k, 'ctype': None, 'accept': ACCEPTS[0], 'query': 'q=%d&who=r%d' % (k, k),
-                         'body': None})
+            v = ch.draw(3, 'variant')
+            up = kind == 'upload'
+            u = v % 2           # few distinct uploads: byte-identical part headers across requests
+            reqs.append({'route': ki, 'path': path_for(TEMPLATES[ki][0], v), 'method': 'POST' if up else 'GET',
+                         'tag': 'tag%d' % k, 'ctype': 'multipart/form-data; boundary=BOUND' if up else None,
+                         'accept': ACCEPTS[0], 'query': 'q=%d&who=r%d' % (k, k),
+                         'body': (UPLOAD % (u, u, u)) if up else None})
         return {'routes': routes, 'n_mw': n_mw, 'reqs': reqs,
                 'independent_mw': bool(ch.draw(2, 'independent_mw')), 'caches_full': False}
     if scenario == 6:
@@ -293,7 +304,8 @@ class ThingMissing(AppError, falcon.HTTPNotFound):
 
 HOT_FUNCS = ('_handle_exception', '_find_error_handler', '_compose_error_response', '_get_responder',
              '_compile_and_find', 'find', '_http_error_handler', '_resolve', 'resolve', 'get_media')
-CACHE_FILES = ('util/misc.py', 'util/mediatypes.py', 'media/handlers.py', 'asgi/request.py', 'request.py')
+CACHE_FILES = ('util/misc.py', 'util/mediatypes.py', 'media/handlers.py', 'asgi/request.py', 'request.py',
+               'media/multipart.py')
 
 
 def fill_caches(app):
@@ -439,7 +451,17 @@ def build_app(plan, asgi, record, pause=None):
                         resp.sse = emitter()
 
                 async def on_post(self, req, resp, **params):
-                    if self._k == 'media':
+                    if self._k == 'upload' and (req.content_type or '').startswith('multipart/form-data'):
+                        form = await req.get_media()
+                        parts = []
+                        async for part in form:
+                            data = await part.get_data()
+                            parts.append([part.name, part.filename,
+                                          part.secure_filename if part.filename else None,
+                                          part.content_type, data.decode()])
+                        await pause()
+                        respond(self._k, self._i, req, resp, params, json.dumps(parts))
+                    elif self._k == 'media':
                         m = await req.get_media()
                         await pause()
                         respond(self._k, self._i, req, resp, params, json.dumps(m, sort_keys=True))
@@ -464,7 +486,15 @@ def build_app(plan, asgi, record, pause=None):
                     respond(self._k, self._i, req, resp, params, None)
 
                 def on_post(self, req, resp, **params):
-                    if self._k == 'media':
+                    if self._k == 'upload' and (req.content_type or '').startswith('multipart/form-data'):
+                        parts = []
+                        for part in req.get_media():
+                            data = part.get_data()
+                            parts.append([part.name, part.filename,
+                                          part.secure_filename if part.filename else None,
+                                          part.content_type, data.decode()])
+                        respond(self._k, self._i, req, resp, params, json.dumps(parts))
+                    elif self._k == 'media':
                         m = req.get_media()
                         respond(self._k, self._i, req, resp, params, json.dumps(m, sort_keys=True))
                     else:
